@@ -206,7 +206,7 @@ func main() {
 
 	for _, c := range []string{"final_has_tombstone", "final_tombstone_on_persisted_key", "final_tombstone_on_unpersisted_key",
 		"history_overwrite_other_value", "history_overwrite_same_value", "history_delete_then_recreate", "history_put_empty_value",
-		"history_delete_of_deleted", "keys_one_prefix_of_other", "key_len_ge_32", "key_empty",
+		"history_delete_of_deleted", "history_put_of_persisted_value", "history_first_touch_is_put_of_persisted_value", "keys_one_prefix_of_other", "key_len_ge_32", "key_empty",
 		"variant/sorted", "variant/permuted", "variant/overwrite_restore", "variant/delete_recreate", "variant/same_value_twice",
 		"variant/via_cachedb", "variant/after_reset", "via_cachedb_discarded_tx", "via_cachedb_committed_tx", "deepclone_checked"} {
 		r.Require(c, 20)
@@ -250,6 +250,14 @@ func runCase(r *vf.Run, store *leveldbstore.LevelDBStore, rng *vf.RNG, idx int) 
 		switch {
 		case c < 55:
 			v := newVal()
+			if persisted(k) && rng.Chance(20) {
+				// write exactly what the persistent store already holds: still a touched key
+				v = append([]byte("P"), k...)
+				flags["history_put_of_persisted_value"] = true
+				if !touched {
+					flags["history_first_touch_is_put_of_persisted_value"] = true
+				}
+			}
 			if touched && len(old) != 0 {
 				flags["history_overwrite_other_value"] = true
 			}
